@@ -1,5 +1,6 @@
 import LoraVerif.Model.Mac
 import LoraVerif.Gen.MacStatic
+import LoraVerif.Props.TieA.OtaaHandleRx
 /-!
 # C11, tie A: the join-accept delays
 
@@ -34,4 +35,43 @@ example : macRxDelay (MacState.init (RegionState.init .US915) 20 0) true true = 
 
 #print axioms tieA_joinAcceptDelays
 #print axioms tieA_joinAcceptDelays_values
+
+/-- builder N — the WHOLE join step: the state-passing translation of the current source of
+`Otaa::handle_rx` (`Gen/OtaaFn.lean`, with `Session::derive_new`, `Session::new`,
+`DLSettings::{rx1_dr_offset, rx2_data_rate}`, `del_to_delay_ms` translated as well) is the model's
+`macHandleRx` on a joining device, for every decrypted view whose octets are octets: a session is
+returned exactly when the buffer verifies under the device's AppKey (the model's `JoinSuccess`); the
+new session has the keys derived from the view under the DevNonce of the pending request and that
+AppKey, the view's DevAddr, counters 0, no FCntDown, nothing pending, no ACK owed; RxDelay 0 and 1 both
+give 1000 ms; RX1DROffset and the RX2 data rate are stored iff the region accepts them; the CFList goes
+to the region first; `Otaa` and the buffer are not changed; a panic of the region's CFList handling is
+a panic of the model.  Abstract: AES/CMAC (the view and the derivations are inputs) and the region's
+three methods (instantiated with the model's).  Proved in `Props/TieA/OtaaHandleRx.lean`. -/
+theorem tieA_otaa_handle_rx (m : MacState) (st : OtaaState) (o : Gen.OtaaFn.Otaa) (g : Gen.OtaaFn.Configuration)
+    (rx : Gen.OtaaFn.RadioBuffer) (maxPayload : Nat) (snr : Int)
+    (hst : m.st = .otaa st) (hcfg : m.cfg = TieA.OtaaRx.cfgOf g) (hwf : TieA.OtaaRx.ViewWF o rx) :
+    (Gen.OtaaFn.Otaa.handle_rx o m.region g rx).map
+        (fun out => ((if out.1.isSome then Response.joinSuccess else Response.noUpdate), TieA.OtaaRx.macAfter m out, out.2.1, out.2.2.2.2))
+      = (macHandleRx m (TieA.OtaaRx.viewOf o rx) maxPayload snr false).toOption.bind
+          (fun r => r.1.map (fun ro => (ro.resp, r.2, o, rx))) :=
+  TieA.OtaaRx.tieA_otaa_handle_rx m st o g rx maxPayload snr hst hcfg hwf
+
+/-- non-vacuity: the hypotheses hold for a joining EU868 device and the example buffer of
+`Props/TieA/OtaaHandleRx.lean`; the join succeeds and the model state is `Joined` -/
+example :
+    let m : MacState := { MacState.init (RegionState.init .EU868) 20 0 with st := .otaa ⟨100⟩ }
+    ((macHandleRx m (TieA.OtaaRx.viewOf ⟨⟨100⟩, ⟨⟨⟨7⟩⟩⟩⟩ TieA.OtaaRx.exRx) 250 0 false).toOption.map
+      (fun r => (r.1.map (·.resp), r.2.cfg.rx1Delay, r.2.cfg.rx1DrOffset, r.2.cfg.rx2DataRate)))
+      = some (some .joinSuccess, 1000, 2, some 3) := by
+  rfl
+
+/-- builder N — the RxDelay the join step stores: 0 and 1 → 1000 ms, d = 2..15 → d·1000 ms -/
+theorem tieA_otaa_rx_delay_values : ∀ k : Fin 16,
+    Gen.OtaaFn.del_to_delay_ms (k.val : Int) = some ((max 1 k.val * 1000 : Nat) : Int) :=
+  TieA.OtaaRx.rx_delay_values
+
+example : Gen.OtaaFn.del_to_delay_ms 0 = some 1000 ∧ Gen.OtaaFn.del_to_delay_ms 15 = some 15000 := by decide
+
+#print axioms tieA_otaa_handle_rx
+#print axioms tieA_otaa_rx_delay_values
 end C11
